@@ -223,6 +223,18 @@ class Grid:
                 c = dict(case)
                 c[n] = dflt
                 out.append(c)
+        # an earlier (simpler) non-default entry of a list menu
+        for n, m in self.slots + self.free:
+            if not isinstance(m, Text):
+                v = case.get(n)
+                try:
+                    i = m.index(v)
+                except ValueError:
+                    continue
+                for j in range(1, i):
+                    c = dict(case)
+                    c[n] = m[j]
+                    out.append(c)
         for n, m in self.slots:
             if isinstance(m, Text):
                 v = case.get(n) or []
